@@ -1116,20 +1116,9 @@ func genHeldAndOpt(cfg hlib.Config, r *hlib.Rand, o *hlib.Out, ev *evaluator, ba
 	for i := 0; i <= 8; i++ {
 		idxOpts = append(idxOpts, map[string]any{"indent": i})
 	}
-	nonEmptyCells := func(t any) bool {
-		return !anyString(t, func(s string) bool { return s == "" })
-	}
 	for k := 0; k < n*4; k++ {
 		op := csvOpts[r.Intn(len(csvOpts))].(map[string]any)
 		t := pick("csv")
-		if c, _ := op["comma"].(string); c == "\t" || c == " " {
-			// a white-space separator: encoding/csv's TrimLeadingSpace swallows the separator in
-			// front of an EMPTY field (reported, see lib/props/C14.json); until that is decided only
-			// tables without empty cells are used with such a separator
-			if !nonEmptyCells(t) {
-				continue
-			}
-		}
 		runOpt(o, ev, "csv", []any{[]any{parseWire(wireOf(op)), t}})
 	}
 	var batchOpt = map[string][]any{}
